@@ -319,6 +319,12 @@ fn freshness_cases() -> Vec<Case> {
         "fn f0() {\nreturn 1\n}\nprint(f0(1))\n",
         "fn f0() {\nreturn 1\n}\nprint(f0([]..))\nprint(f0([1]..))\n",
         "o := {\"n\": 0, \"inc\": fn () {\nthis.n += 1\nreturn this.n\n}}\nprint(o.inc())\nprint(o.inc(5))\n",
+        "o := {\"id\": \"O\", \"f\": fn () {\nreturn $\"<${this.id}>\"\n}}\nprint(o.f())\nprint(o[\"f\"]())\ng := o.f\nprint(g())\np := {\"id\": \"P\", \"f\": o.f}\nprint(p.f())\n",
+        "o := {\"id\": \"O\", \"f\": fn () {\nh := fn () {\nreturn $\"${this.id}!\"\n}\nreturn h()\n}}\nprint(o.f())\n",
+        "fn f(_, _, x) {\nprint(x)\n}\nf(1, 2, 3)\ng := fn (_, [_, y], _) {\nprint(y)\n}\ng(1, [2, 3], 4)\nfn t(_, _, ..r) {\nprint(r)\n}\nt(1, 2, 3, 4)\no := {\"m\": fn (_, _) {\nprint(\"m\")\n}}\no.m(1, 2)\n",
+        "fn mk() {\no := {\"id\": \"T\", \"f\": fn () {\nreturn this.id\n}}\nreturn o.f\n}\ng := mk()\nprint(g())\nprint(mk()())\n",
+        "fn make() {\nreturn {\"id\": \"M\", \"m\": fn () {\nreturn this.id\n}}\n}\nprint(make().m())\nprint(make()[\"m\"]())\nfs := []\nfor [i, n] in [\"a\", \"b\"] {\nob := {\"id\": n, \"m\": fn () {\nreturn this.id\n}}\nfs += [ob.m]\n}\nprint(fs[0]())\nprint(fs[1]())\n",
+        "o := {\"id\": \"O\", \"m\": fn () {\nreturn this.id\n}}\nh := o.m\no = null\nprint(h())\n",
         "g := fn () {\nreturn 1\n}\nprint(g())\nprint(g(null))\n",
         // a spread argument contributes the items it has when it is evaluated
         "fn f(..r) {\nprint(r)\n}\nxs := [1, 2]\nfn g() {\nxs[0] = 9\nreturn 5\n}\nf(xs.., g())\nprint(xs)\n",
@@ -375,6 +381,8 @@ impl Check for C14 {
         let n_ar = ar.len();
         ctx.judge(ar, |c, r, o| self.oracle(c, r, o))?;
         ctx.judge(freshness_cases(), |c, r, o| self.oracle(c, r, o))?;
+        let tp: Vec<Case> = super::evalorder::THIS_PROGRAMS.iter().enumerate().map(|(i, p)| Case::new(p.to_string(), 1, format!("`this` per call and per creation site, program {}", i))).collect();
+        ctx.judge(tp, |c, r, o| self.oracle(c, r, o))?;
         // arguments are evaluated once, left to right (and before the callee), also with spreads
         let eo: Vec<Case> = super::evalorder::cases(2).into_iter().filter(|c| c.meta.contains("(@")).collect();
         ctx.judge(eo, |c, r, o| self.oracle(c, r, o))?;
